@@ -14,7 +14,7 @@ ORACLES = ("csscolor", "cssmodel")
 RULE = ("fault enumeration: directory trees of 2-8 generated stylesheets in 1-3 directory levels (custom properties of the same name with different values in "
         "different files; rules referencing - directly, through a chain, or with a fallback - a property defined only in another file) x each fault kind "
         "{non-UTF-8 bytes, directory named *.css, dangling symlink *.css, sheet that cannot be re-serialised, empty file, pre-existing orphan *_cm.css, "
-        "pre-existing stale output} x each placement {sorts first, middle, last} x {root, sub-directory}. All runs are real subprocesses. Oracle: every "
+        "pre-existing stale output, output path blocked by a directory} x each placement {sorts first, middle, last} x {root, sub-directory}. Half of the trees hold a symbolic-link twin of one sheet (an input of its own). All runs are real subprocesses. Oracle: every "
         "stylesheet's directory-run output is byte-identical to the output of running the command on that file alone in a pristine copy; a second "
         "directory run reproduces the same set and bytes and creates no *_cm_cm.css; orphan *_cm.css files are untouched; each undecodable/unopenable file "
         "is named on stderr and the exit status is 0. Non-trivial = tree with a fault and >= 2 stylesheets; distinct = (tree, fault kind, placement).")
